@@ -89,8 +89,12 @@ def _set_generation(caller, size, g):
     with torch.no_grad():
         p0._tensor = torch.arange(n, dtype=torch.float64) * 1e-3 + float(g) + 0.125
         p1._tensor = torch.tensor([g, g + 0.5, -g], dtype=torch.float32)
+    pad = (g * 7) % 5  # the serialisation of a later generation may be shorter than an earlier one
     if caller == "mcmc":
+        from collections import deque
+
         obj._epoch = g
+        obj._operators[0]._accept_window = deque([1] * pad)
         obj._operators[0]._scaler = 0.5 + 0.001 * g
         obj._operators[0]._accept = g
         obj._operators[1]._width = 0.1 + g
@@ -98,6 +102,7 @@ def _set_generation(caller, size, g):
         obj._epoch = g
         obj.optimizer.param_groups[0]["params"] = [p0.tensor, p1.tensor]
         obj.optimizer.param_groups[0]["lr"] = 0.1 + 0.001 * g
+        obj.optimizer.param_groups[0]["weight_decay"] = [0.0, 0.5, 0.25, 0.125, 0.0625][pad]
     return obj, p0, p1
 
 
@@ -111,7 +116,7 @@ def _full_state(caller, size, g):
         st = {"id": obj.id, "type": "Optimizer"}
         st.update(obj.state_dict())
         return [st] + obj.parameters
-    return [{"id": "algo", "type": "MCMC", "iteration": g}, p0, p1]
+    return [{"id": "algo", "type": "MCMC", "iteration": g, "window": [1] * ((g * 7) % 5)}, p0, p1]
 
 
 def reference(caller, size, g):
